@@ -12,6 +12,7 @@ from __future__ import annotations
 import ast
 import copy
 import itertools
+import json
 import logging
 import signal
 import warnings
@@ -25,7 +26,7 @@ LEVEL_TEXT = ("Theorems by structural induction over every expression tree (all 
               "building the tree in which exactly the strings selected by the stated rule (top flag on, not under a Literal[...] slice, not literal text of an "
               "f-string, not in a subscripted value, not in a lambda default, content parses) are replaced by their parsed code; every Name / attribute name "
               "of that tree appears, in order, as a name piece (modulo dropped format specs / await); and str(build e) equals a precedence-aware reference "
-              "printer character for character whenever e touches none of twelve decidable known-gap families, each refuted by a computed witness. "
+              "printer character for character whenever e touches none of the eight decidable known-gap families that remain after the repairs (five defects were fixed in /repo), each refuted by a computed witness. "
               "The reference printer is tied to CPython's parser, the model to Griffe by exhaustive depth-2 and random depth-6 differential runs, "
               "the operator/node tables are regenerated from expressions.py on every run.")
 LEVEL_NOTE = ("Trusted: Coq kernel, extraction, translator harness/translate/c03_tables.py, the ast->pyexpr abstraction (incl. CPython's own parse of "
@@ -470,7 +471,7 @@ class Gen:
         if r < 0.55:
             return nm(self.rng.choice(NAMES))
         if r < 0.7:
-            return const(self.rng.choice([0, 1, 7, 42, 1.5, 2j, 10 ** 20] + ([] if self.safe else [1e400])))
+            return const(self.rng.choice([0, 1, 7, 42, 1.5, 2j, 10 ** 20, 1e400]))
         if r < 0.8:
             return const(self.rng.choice([None, True, False, Ellipsis, b"by"]))
         return self.string()
@@ -574,8 +575,6 @@ class Gen:
                 sl = ast.Tuple(elts=elts, ctx=ast.Load())
             return ast.Subscript(value=val, slice=sl, ctx=ast.Load())
         if kind == "Tuple":
-            if safe and leak:
-                return None
             return ast.Tuple(elts=self.elts(d, False, 0, 3), ctx=ast.Load())
         if kind == "List":
             return ast.List(elts=self.elts(d, leak, 0, 3), ctx=ast.Load())
@@ -584,7 +583,7 @@ class Gen:
         if kind == "Dict":
             ks, vs = [], []
             for _ in range(rng.randint(0, 3)):
-                if not safe and rng.random() < 0.2:
+                if rng.random() < 0.2:
                     ks.append(None)
                     vs.append(self.sub(d, 9, leak))
                 else:
@@ -622,8 +621,6 @@ class Gen:
                 return None
             return ast.GeneratorExp(elt=self.sub(d, 4, leak), generators=self.gens(d, leak))
         if kind == "DictComp":
-            if safe:
-                return None
             return ast.DictComp(key=self.sub(d, 4, leak), value=self.sub(d, 4, leak), generators=self.gens(d, leak))
         if kind == "JoinedStr":
             parts = []
@@ -767,11 +764,11 @@ def parent_slots():
 
 
 # ---------------------------------------------------------------- running cases
-FAMILY = {1: "C03-F1", 2: "C03-F2", 3: "C03-F3", 4: "C03-F4", 5: "C03-F5", 6: "C03-F6", 7: "C03-F7", 8: "C03-F8", 9: "C03-F9",
-          10: "C03-F10", 11: "C03-F11", 12: "C03-F12"}
-FAMILY_NAME = {1: "group", 2: "dict_unpack", 3: "fstring", 4: "lambda_params", 5: "dictcomp", 6: "genexp", 7: "empty_slice_tuple", 8: "yield",
-               9: "int_attr", 10: "await", 11: "subscript_leak", 12: "inf"}
-PRIORITY = [10, 2, 5, 4, 3, 7, 11, 9, 12, 6, 8, 1]
+# families 2 (dict unpacking), 5 (dict comprehension spacing), 11 (in_subscript leak), 12 (non-finite literals) and the
+# decorator crash F13 were repaired in /repo: they have no classifier any more, so a recurrence is a violation
+FAMILY = {1: "C03-F1", 3: "C03-F3", 4: "C03-F4", 6: "C03-F6", 7: "C03-F7", 8: "C03-F8", 9: "C03-F9", 10: "C03-F10"}
+FAMILY_NAME = {1: "group", 3: "fstring", 4: "lambda_params", 6: "genexp", 7: "empty_slice_tuple", 8: "yield", 9: "int_attr", 10: "await"}
+PRIORITY = [10, 4, 3, 7, 9, 6, 8, 1]
 BATCH = 40
 
 
@@ -825,16 +822,6 @@ def prepare(chunk, src):
         c["top"] = top
         c["Eexp"] = py_subst(c["E"], False if c["parse"] else None)
         c["query"] = ["run", top, 1 if c["parse"] else 0, A(c["E"])]
-
-
-def calls_literal(n) -> bool:
-    """Classifier of finding F13: Decorator.callable_path -> canonical_path walks Call.func / Subscript.value and reaches a
-    call whose function part is a constant (built as a plain str, which has no canonical_path)."""
-    if isinstance(n, ast.Call):
-        return isinstance(n.func, ast.Constant) or calls_literal(n.func)
-    if isinstance(n, ast.Subscript):
-        return calls_literal(n.value)
-    return False
 
 
 def pick_family(gaps):
@@ -930,9 +917,8 @@ def check_case(ctx, c, obj, out, stream):
         if isinstance(x, (ast.expr, ast.comprehension, ast.keyword)):
             ctx.observe("node", type(x).__name__)
     if isinstance(obj, Exception):
-        known = c["pos"] == "decorator" and calls_literal(E) and isinstance(obj, AttributeError)
-        ctx.observe("outcome", "known:decorator_calls_literal" if known else "UNEXPLAINED-visit-raised")
-        ctx.property_failure(cj, {"visit raised": type(obj).__name__ + ": " + str(obj)[:200]}, finding="C03-F13" if known else None)
+        ctx.observe("outcome", "UNEXPLAINED-visit-raised")
+        ctx.property_failure(cj, {"visit raised": type(obj).__name__ + ": " + str(obj)[:200]})
         return
     if out == ["bad-input"] or len(out) != 9:
         ctx.tie_failure("harness", "model rejected the abstraction", out, cj)
@@ -987,17 +973,13 @@ def check_case(ctx, c, obj, out, stream):
 
 WITNESSES = {
     "C03-F1": ("assign", False, "(a + b) * c"),
-    "C03-F2": ("assign", False, "{**a}"),
     "C03-F3": ("assign", False, "f'{a!r:>{w}}'"),
     "C03-F4": ("assign", False, "lambda *a, k: 0"),
-    "C03-F5": ("assign", False, "{a: b for a in c}"),
     "C03-F6": ("assign", False, "(x for x in y)"),
     "C03-F7": ("assign", False, "a[()]"),
     "C03-F8": ("assign", False, "[(yield)]"),
     "C03-F9": ("assign", False, "(1).real"),
     "C03-F10": ("assign", False, "f(await x)"),
-    "C03-F11": ("assign", False, "a[f((1, 2))]"),
-    "C03-F12": ("assign", False, "1e400"),
 }
 
 
@@ -1015,12 +997,14 @@ def replay_witnesses(ctx):
                 ctx.tie_failure("oracle", f"model: witness of {c['label']} is not classified in family {fam}", {"gaps": out[4]}, case_json(c))
 
 
-def replay_decorator_witness(ctx):
-    try:
-        visit_module(HEADER + "@'s'()\ndef d0(): ...\n")
-        ctx.witness("C03-F13", False)
-    except AttributeError:
-        ctx.witness("C03-F13", True)
+def corpus_cases():
+    """corpus/C03/*.json: witnesses of repaired defects and minimised past disagreements; every one must pass all checks."""
+    out = []
+    d = Path(__file__).resolve().parents[2] / "corpus" / "C03"
+    for f in sorted(d.glob("*.json")):
+        for c in json.loads(f.read_text())["cases"]:
+            out.append({"src": c["expression"], "pos": c["position"], "future": c["future_annotations"], "label": f.stem})
+    return out
 
 
 def mk(n, pos, future, label=""):
@@ -1104,7 +1088,7 @@ def random_cases(ctx, count, safe, maxd, strings="data"):
 
 def explore(ctx):
     replay_witnesses(ctx)
-    replay_decorator_witness(ctx)
+    run_cases(ctx, corpus_cases(), "corpus")
     ex = exhaustive_cases(ctx, full=not ctx.quick)
     ctx.exhaustive = not ctx.quick
     run_cases(ctx, ex, "exhaustive-depth2")
@@ -1140,7 +1124,7 @@ def _has_unsafe(s: str) -> bool:
 
 def py_gaps(n, direct=False, isub=False, ijoin=False, ifmt=False) -> set:
     """Mirror of gaps (coq/Model/C03_spec.v) on the expected ast tree."""
-    g1 = lambda c: py_gaps(c, False, isub, ijoin, ifmt)
+    g1 = lambda c: py_gaps(c, False, False, ijoin, ifmt)
     ga = lambda req, c: _need(req, c) | g1(c)
     t = type(n)
     out = set()
@@ -1148,8 +1132,6 @@ def py_gaps(n, direct=False, isub=False, ijoin=False, ifmt=False) -> set:
         return out
     if t is ast.Constant:
         v = n.value
-        if isinstance(v, (float, complex)) and repr(v) in ("inf", "infj"):
-            out.add(12)
         if isinstance(v, str) and ijoin and not ifmt:
             out.add(3)
         return out
@@ -1193,8 +1175,6 @@ def py_gaps(n, direct=False, isub=False, ijoin=False, ifmt=False) -> set:
                 out |= ga(4, c)
         return out
     if t is ast.Tuple:
-        if isub and not direct:
-            out.add(11)
         if direct and not n.elts:
             out.add(7)
         for c in n.elts:
@@ -1207,7 +1187,6 @@ def py_gaps(n, direct=False, isub=False, ijoin=False, ifmt=False) -> set:
     if t is ast.Dict:
         for k, v in zip(n.keys, n.values):
             if k is None:
-                out.add(2)
                 out |= ga(9, v)
             else:
                 out |= ga(4, k) | ga(4, v)
@@ -1232,7 +1211,6 @@ def py_gaps(n, direct=False, isub=False, ijoin=False, ifmt=False) -> set:
             out |= g1(g)
         return out
     if t is ast.DictComp:
-        out.add(5)
         out |= ga(4, n.key) | ga(4, n.value)
         for g in n.generators:
             out |= g1(g)
@@ -1248,7 +1226,7 @@ def py_gaps(n, direct=False, isub=False, ijoin=False, ifmt=False) -> set:
                 if ifmt or "{" in c.value or "}" in c.value or _has_unsafe(c.value):
                     out.add(3)
             else:
-                out |= py_gaps(c, False, isub, True, ifmt)
+                out |= py_gaps(c, False, False, True, ifmt)
         return out
     if t is ast.FormattedValue:
         if n.conversion != -1 or n.format_spec is not None:
@@ -1259,7 +1237,7 @@ def py_gaps(n, direct=False, isub=False, ijoin=False, ifmt=False) -> set:
             txt = ""
         if txt.startswith("{") and prec_of(n.value) >= 5:
             out.add(3)
-        return out | _need(5, n.value) | py_gaps(n.value, False, isub, ijoin, True)
+        return out | _need(5, n.value) | py_gaps(n.value, False, False, ijoin, True)
     if t is ast.Yield:
         return ga(4, n.value) if n.value is not None else out
     if t is ast.YieldFrom:
@@ -1298,10 +1276,8 @@ def search(ctx):
                     else:
                         obj = impl_at(mod, c["pos"], c["k"])
                 except Exception as e:  # noqa: BLE001
-                    if not (c["pos"] == "decorator" and calls_literal(c["E"]) and isinstance(e, AttributeError)):
-                        ctx.property_failure(case_json(c), {"visit raised": type(e).__name__ + ": " + str(e)[:200]})
-                        return
-                    continue
+                    ctx.property_failure(case_json(c), {"visit raised": type(e).__name__ + ": " + str(e)[:200]})
+                    return
                 ok, detail = direct_eval(obj, c["Eexp"], c["top"])
                 if ok:
                     continue
